@@ -367,6 +367,7 @@ def k1_triggers(p, ex=None):
             if call[0] in ('run_for', 'update'):
                 ends[i] = start + call[1]
     trig = []
+    clock_idx = sorted(c['idx'] for c in p.clocks)
     for pid, polls in p.polls.items():
         inv_idx = sorted(r['idx'] for r in p.invokes.get(pid, []))
         cond_idx = sorted(c['idx'] for c in p.conds.get(pid, []))
@@ -381,7 +382,13 @@ def k1_triggers(p, ex=None):
                 prev['front'] == q['front']
                 and prev['call'] in ends
                 and prev['front'] + prev['ts'] > ends[prev['call']]
-                and not any(prev['idx'] < x < q['idx'] for x in cond_idx))
+                and not any(prev['idx'] < x < q['idx'] for x in cond_idx)
+                # ... and the scheduler asked again in the very next pass
+                # (a process at or behind the clock is polled in EVERY
+                # pass; one that was passed over for several passes lags
+                # for another reason than K1)
+                and sum(1 for x in clock_idx
+                        if prev['idx'] < x < q['idx']) <= 1)
             if deferred:
                 trig.append(q)
     return sorted(trig, key=lambda q: q['idx'])
